@@ -192,7 +192,7 @@ open Prog
 
 /-- How the code orders the steps the findings are about; `coded` is regenerated from the source. -/
 structure Variant where
-  /-- `remove_if_equals`: `os.remove(loose)` before `_remove_packed_ref` -/
+  /-- `remove_if_equals`: `os.remove(loose)` before `_remove_packed_ref` (else: lexists, packed entry, loose) -/
   rmLooseFirst : Bool
   /-- `add_packed_refs`: loose files removed before the new packed-refs is renamed in -/
   packRemovesLooseFirst : Bool
@@ -200,17 +200,22 @@ structure Variant where
   addChecksName : Bool
   /-- number of times `WorkTree.commit` reads the branch head (the CAS uses the last read) -/
   commitReads : Nat
+  /-- `pack_refs`: a loose file is pruned under the ref's own lock and only if it still holds the packed value -/
+  packRecheck : Bool := false
   deriving DecidableEq, Repr
 
 def Variant.coded : Variant :=
   { rmLooseFirst := Gen.RefsFS.rmLooseBeforePacked
     packRemovesLooseFirst := Gen.RefsFS.packRemovesLooseBeforeReplace
     addChecksName := Gen.RefsFS.addIfNewChecksName
-    commitReads := Gen.RefsFS.worktreeCommitHeadReads }
+    commitReads := Gen.RefsFS.worktreeCommitHeadReads
+    packRecheck := Gen.RefsFS.packPrunesUnderRefLock }
 
-/-- the order proposed as repair (see the report): packed entry first, single read in commit -/
+/-- the repaired orders: packed entry before the loose file in remove_if_equals, loose files pruned after the
+rename of packed-refs (under the ref lock, if unchanged), resolved name re-checked, single read in commit -/
 def Variant.repaired : Variant :=
-  { rmLooseFirst := false, packRemovesLooseFirst := true, addChecksName := false, commitReads := 1 }
+  { rmLooseFirst := false, packRemovesLooseFirst := false, addChecksName := false, commitReads := 1,
+    packRecheck := true }
 
 /-! ### readers -/
 
@@ -326,8 +331,14 @@ def removeIfEquals (vr : Variant) (name : Ref) (old : Option (Option Val)) (c : 
           sRemoveR name fun ok => if ok then kk else sRemoveL name fun _ => k (.exc .notfound) c
         else kk
     let body (c : Cache) : Prog :=
-      if vr.rmLooseFirst then rmLoose c (removePacked name c fail finish)
-      else removePacked name c fail fun c => rmLoose c (finish c)
+      if vr.rmLooseFirst then rmLoose c (removePacked name c fail finish)     -- lexists; remove loose; packed entry
+      else
+        -- lexists; packed entry; remove loose (if it was found)
+        sLstatR name fun found =>
+          removePacked name c fail fun c =>
+            if found then
+              sRemoveR name fun ok => if ok then finish c else sRemoveL name fun _ => k (.exc .notfound) c
+            else finish c
     match old with
     | none => body c
     | some o =>
@@ -351,6 +362,17 @@ def removeLooseAll : List Ref → Prog → Prog
   | [], k => k
   | r :: rs, k => sRemoveR r fun _ => removeLooseAll rs k
 
+/-- `_prune_loose_ref` for each packed ref: take `<ref>.lock` (skip the ref when it is busy), re-read the loose
+file, unlink it only if it still holds the packed value, release the lock -/
+def pruneLoose : List (Ref × Sha) → Prog → Prog
+  | [], k => k
+  | (r, s) :: rest, k =>
+    sOpenX r fun ok =>
+      if !ok then pruneLoose rest k else
+      sOpenR r fun v =>
+        if v = some (Val.sha s) then sRemoveR r fun _ => sRemoveL r fun _ => pruneLoose rest k
+        else sRemoveL r fun _ => pruneLoose rest k
+
 /-- `DiskRefsContainer.add_packed_refs(new)` for a non-empty list of (name, sha) -/
 def addPackedRefs (vr : Variant) (new : List (Ref × Sha)) (c : Cache) (k : Outcome → Cache → Prog) : Prog :=
   sOpenXP fun ok =>
@@ -360,7 +382,9 @@ def addPackedRefs (vr : Variant) (new : List (Ref × Sha)) (c : Cache) (k : Outc
       if vr.packRemovesLooseFirst then
         removeLooseAll (new.map (·.1)) (sFsyncP fun _ => sReplaceP m' fun _ => k .unit Cache.empty)
       else
-        sFsyncP fun _ => sReplaceP m' fun _ => removeLooseAll (new.map (·.1)) (k .unit Cache.empty)
+        sFsyncP fun _ => sReplaceP m' fun _ =>
+          if vr.packRecheck then pruneLoose new (k .unit Cache.empty)
+          else removeLooseAll (new.map (·.1)) (k .unit Cache.empty)
 
 /-- `DiskRefsContainer.allkeys()` (HEAD, loose refs in refs/heads, packed names), in set order -/
 def allKeys (env : Env) (c : Cache) (k : List Ref → Cache → Prog) : Prog :=
